@@ -196,6 +196,11 @@ def run_case(case, ctx):
                     ctx.fail("grid-changed", "%s: a modifying request through insufficient authority (answered %d) changed %d share files" % (desc, resp.code, len(changed)), op=op, base=rq["base"], crossed=crossed_ro)
             elif resp.code < 400:
                 classes.add("allowed")
+                if op == "delete-self":
+                    # the link is gone: a later request naming it no longer reaches the old object (a PUT there legitimately
+                    # creates a new child of the writeable parent), so the reference tree follows the directory
+                    tree[pres[0]].pop(rq["path"][-1], None)
+                    classes.add("link-removed-then-model-follows")
     finally:
         g.stop()
         mutfile.restore_segsize()
